@@ -434,7 +434,7 @@ class FakeK8s:
         md['resourceVersion'] = str(self._bump())
         self._normalise(o)
         self.objs[key] = o
-        self.rec('srv.create', actor=actor, res=res.plural, name=name, uid=md['uid'], rv=self.rv, proj=self._proj(res, o))
+        self.rec('srv.create', actor=actor, res=res.plural, group=res.group, name=name, uid=md['uid'], rv=self.rv, proj=self._proj(res, o))
         self._emit(res, 'ADDED', o)
         return o
 
@@ -443,17 +443,17 @@ class FakeK8s:
         self._normalise(new)
         new['metadata']['resourceVersion'] = old['metadata']['resourceVersion']
         if new == old:
-            self.rec('srv.write', actor=actor, how=how, res=res.plural, name=key[2], uid=old['metadata']['uid'],
+            self.rec('srv.write', actor=actor, how=how, res=res.plural, group=res.group, name=key[2], uid=old['metadata']['uid'],
                      rv=_rvint(old['metadata']['resourceVersion']), noop=True)
             return copy.deepcopy(old), False
         if new.get('spec') != old.get('spec'):
             new['metadata']['generation'] = old['metadata'].get('generation', 1) + 1
         new['metadata']['resourceVersion'] = str(self._bump())
         gone = bool(new['metadata'].get('deletionTimestamp')) and not new['metadata'].get('finalizers')
-        self.rec('srv.write', actor=actor, how=how, res=res.plural, name=key[2], uid=new['metadata']['uid'],
+        self.rec('srv.write', actor=actor, how=how, res=res.plural, group=res.group, name=key[2], uid=new['metadata']['uid'],
                  rv=self.rv, noop=False, gone=gone)
         self.events_last_proj = self._proj(res, new)
-        self.rec('srv.state', res=res.plural, name=key[2], uid=new['metadata']['uid'], rv=self.rv, gone=gone, proj=self.events_last_proj)
+        self.rec('srv.state', res=res.plural, group=res.group, name=key[2], uid=new['metadata']['uid'], rv=self.rv, gone=gone, proj=self.events_last_proj)
         if gone:
             del self.objs[key]
             self._emit(res, 'DELETED', new)
@@ -481,7 +481,7 @@ class FakeK8s:
         else:
             new['metadata']['resourceVersion'] = str(self._bump())
             del self.objs[key]
-            self.rec('srv.write', actor=actor, how='delete', res=res.plural, name=name, uid=new['metadata']['uid'],
+            self.rec('srv.write', actor=actor, how='delete', res=res.plural, group=res.group, name=name, uid=new['metadata']['uid'],
                      rv=self.rv, noop=False, gone=True)
             self._emit(res, 'DELETED', new)
 
